@@ -248,16 +248,26 @@ class NDNApp:
         self.face.send(raw_interest)
         return self._wait_for_data(future, interest_param.lifetime, node_name, node, validator, need_raw_packet)
 
+    def _remove_pending(self, future: aio.Future, node_name, node):
+        # Drop a finished Interest from the table. The node is deleted only if it is still the one registered
+        # under node_name: it may have been removed (and replaced) while this Interest was waiting.
+        if node.timeout(future):
+            try:
+                if self._int_tree[node_name] is node:
+                    del self._int_tree[node_name]
+            except KeyError:
+                pass
+
     async def _wait_for_data(self, future: aio.Future, lifetime: int, node_name: FormalName,
                              node: InterestTreeNode, validator: Validator, need_raw_packet: bool):
         lifetime = 100 if lifetime is None else lifetime
         try:
             data_name, meta_info, content, sig, raw_packet = await aio.wait_for(future, timeout=lifetime/1000.0)
         except TimeoutError:
-            if node.timeout(future):
-                del self._int_tree[node_name]
+            self._remove_pending(future, node_name, node)
             raise InterestTimeout()
         except aio.CancelledError:
+            self._remove_pending(future, node_name, node)
             raise InterestCanceled()
         if validator is None:
             validator = self.data_validator
